@@ -49,9 +49,12 @@ Alphabet ==
          {97, 101, 69, 117, 85, 102, 49, 45, 43, 46, 37, 35, 64, 40, 41, 47, 42, 124, 61, 126, 60, 33, 62, 63, 92}
     [] Family = "T10" -> \* units that look like exponents, after the digit 1: \ 6 5 4 space 3 e E -
          {92, 54, 53, 52, 32, 51, 101, 69, 45}
+    [] Family = "T11" -> \* hex escapes at the limits of the code space (10FFFF / 110000) and of the surrogates (D7FF D800 DFFF E000): 1 0 F d 8 7 e
+         {49, 48, 70, 100, 56, 55, 101}
 Prefixes ==
   CASE Family = "T3" -> {<<117, 114, 108, 40>>, <<85, 114, 76, 40>>, <<117, 114, 108, 40, 32>>}
     [] Family = "T7" -> {<<92>>, <<34, 92>>}
+    [] Family = "T11" -> {<<92>>, <<34, 92>>}
     [] Family = "T8" -> {<<>>, <<34>>}
     [] Family = "T10" -> {<<49>>}
     [] OTHER -> {<<>>}
